@@ -47,3 +47,52 @@ package momentum
 //@ lit#0 invariant rwf(memory) && len(memory.buffer) == t.DownDays
 //@ lit#0 ensures 0 - 1 <= ret && ret <= 1
 //@ loop#0 invariant 1 <= i && i <= t.DownDays && rwf(memory) && len(memory.buffer) == t.DownDays
+
+// ---- reports (C14): every column has one value per date row; rows carry that date's close, annotation, outcome ----
+//@ func AwesomeOscillatorStrategy.Report
+//@ requires a.AwesomeOscillator.ShortSma.Period >= 1 && a.AwesomeOscillator.ShortSma.Period <= a.AwesomeOscillator.LongSma.Period && consumed(c) == 0 && (forall k :: 0 <= k && k < len(c) ==> c[k].Close > 0)
+//@ ensures[C14] "column-count" len(result.Columns) == 4
+//@ ensures[C14] "one-value-per-date" len(c) > (a.AwesomeOscillator.IdlePeriod()) ==> (forall i :: 0 <= i && i < len(result.Columns) ==> len(col(result.Columns[i])) == len(result.Date))
+//@ ensures[C14] "dates" len(c) > (a.AwesomeOscillator.IdlePeriod()) ==> len(result.Date) <= len(c) && (forall k :: 0 <= k && k < len(result.Date) ==> result.Date[k] == c[k + len(c) - len(result.Date)].Date)
+//@ ensures[C14] "close" len(c) > (a.AwesomeOscillator.IdlePeriod()) ==> (forall k :: 0 <= k && k < len(result.Date) ==> colnum(result.Columns[0])[k] == c[k + len(c) - len(result.Date)].Close)
+//@ ensures[C14] "annotation" len(c) > (a.AwesomeOscillator.IdlePeriod()) ==> (forall k :: 0 <= k && k < len(result.Date) ==> colstr(result.Columns[2])[k] == (normS(res(AwesomeOscillatorStrategy_Compute), k + len(c) - len(result.Date)) == 0 - 1 ? "S" : (normS(res(AwesomeOscillatorStrategy_Compute), k + len(c) - len(result.Date)) == 1 ? "B" : "")))
+//@ ensures[C14] "outcome" len(c) > (a.AwesomeOscillator.IdlePeriod()) ==> (forall k :: 0 <= k && k < len(result.Date) ==> colnum(result.Columns[3])[k] == res(Outcome)[k + len(c) - len(result.Date)] * 100)
+//@ ensures[C03] consumed(c) == len(c)
+//@ use nlast_hold(res(AwesomeOscillatorStrategy_Compute), len(res(AwesomeOscillatorStrategy_Compute)) - len(arg(ActionsToAnnotations, 0, 0)), len(res(AwesomeOscillatorStrategy_Compute)) - len(arg(ActionsToAnnotations, 0, 0)))
+//@ use nlast_skip(res(AwesomeOscillatorStrategy_Compute), arg(ActionsToAnnotations, 0, 0), len(res(AwesomeOscillatorStrategy_Compute)) - len(arg(ActionsToAnnotations, 0, 0)))
+
+//@ func RsiStrategy.Report
+//@ requires r.Rsi.Rma.Period >= 1 && consumed(c) == 0 && (forall k :: 0 <= k && k < len(c) ==> c[k].Close > 0)
+//@ ensures[C14] "column-count" len(result.Columns) == 4
+//@ ensures[C14] "one-value-per-date" len(c) > (r.Rsi.IdlePeriod()) ==> (forall i :: 0 <= i && i < len(result.Columns) ==> len(col(result.Columns[i])) == len(result.Date))
+//@ ensures[C14] "dates" len(c) > (r.Rsi.IdlePeriod()) ==> len(result.Date) <= len(c) && (forall k :: 0 <= k && k < len(result.Date) ==> result.Date[k] == c[k + len(c) - len(result.Date)].Date)
+//@ ensures[C14] "close" len(c) > (r.Rsi.IdlePeriod()) ==> (forall k :: 0 <= k && k < len(result.Date) ==> colnum(result.Columns[0])[k] == c[k + len(c) - len(result.Date)].Close)
+//@ ensures[C14] "annotation" len(c) > (r.Rsi.IdlePeriod()) ==> (forall k :: 0 <= k && k < len(result.Date) ==> colstr(result.Columns[2])[k] == (normS(res(RsiStrategy_Compute), k + len(c) - len(result.Date)) == 0 - 1 ? "S" : (normS(res(RsiStrategy_Compute), k + len(c) - len(result.Date)) == 1 ? "B" : "")))
+//@ ensures[C14] "outcome" len(c) > (r.Rsi.IdlePeriod()) ==> (forall k :: 0 <= k && k < len(result.Date) ==> colnum(result.Columns[3])[k] == res(Outcome)[k + len(c) - len(result.Date)] * 100)
+//@ ensures[C03] consumed(c) == len(c)
+//@ use nlast_hold(res(RsiStrategy_Compute), len(res(RsiStrategy_Compute)) - len(arg(ActionsToAnnotations, 0, 0)), len(res(RsiStrategy_Compute)) - len(arg(ActionsToAnnotations, 0, 0)))
+//@ use nlast_skip(res(RsiStrategy_Compute), arg(ActionsToAnnotations, 0, 0), len(res(RsiStrategy_Compute)) - len(arg(ActionsToAnnotations, 0, 0)))
+
+//@ func StochasticRsiStrategy.Report
+//@ requires s.StochasticRsi.Rsi.Rma.Period >= 1 && s.StochasticRsi.Min.Period >= 1 && s.StochasticRsi.Max.Period == s.StochasticRsi.Min.Period && consumed(c) == 0 && (forall k :: 0 <= k && k < len(c) ==> c[k].Close > 0)
+//@ ensures[C14] "column-count" len(result.Columns) == 4
+//@ ensures[C14] "one-value-per-date" len(c) > (s.StochasticRsi.IdlePeriod()) ==> (forall i :: 0 <= i && i < len(result.Columns) ==> len(col(result.Columns[i])) == len(result.Date))
+//@ ensures[C14] "dates" len(c) > (s.StochasticRsi.IdlePeriod()) ==> len(result.Date) <= len(c) && (forall k :: 0 <= k && k < len(result.Date) ==> result.Date[k] == c[k + len(c) - len(result.Date)].Date)
+//@ ensures[C14] "close" len(c) > (s.StochasticRsi.IdlePeriod()) ==> (forall k :: 0 <= k && k < len(result.Date) ==> colnum(result.Columns[0])[k] == c[k + len(c) - len(result.Date)].Close)
+//@ ensures[C14] "annotation" len(c) > (s.StochasticRsi.IdlePeriod()) ==> (forall k :: 0 <= k && k < len(result.Date) ==> colstr(result.Columns[2])[k] == (normS(res(StochasticRsiStrategy_Compute), k + len(c) - len(result.Date)) == 0 - 1 ? "S" : (normS(res(StochasticRsiStrategy_Compute), k + len(c) - len(result.Date)) == 1 ? "B" : "")))
+//@ ensures[C14] "outcome" len(c) > (s.StochasticRsi.IdlePeriod()) ==> (forall k :: 0 <= k && k < len(result.Date) ==> colnum(result.Columns[3])[k] == res(Outcome)[k + len(c) - len(result.Date)] * 100)
+//@ ensures[C03] consumed(c) == len(c)
+//@ use nlast_hold(res(StochasticRsiStrategy_Compute), len(res(StochasticRsiStrategy_Compute)) - len(arg(ActionsToAnnotations, 0, 0)), len(res(StochasticRsiStrategy_Compute)) - len(arg(ActionsToAnnotations, 0, 0)))
+//@ use nlast_skip(res(StochasticRsiStrategy_Compute), arg(ActionsToAnnotations, 0, 0), len(res(StochasticRsiStrategy_Compute)) - len(arg(ActionsToAnnotations, 0, 0)))
+
+//@ func TripleRsiStrategy.Report
+//@ requires t.Rsi.Rma.Period >= 1 && t.Sma.Period >= 1 && t.Sma.IdlePeriod() >= t.Rsi.IdlePeriod() && t.DownDays >= 1 && consumed(c) == 0 && (forall k :: 0 <= k && k < len(c) ==> c[k].Close > 0)
+//@ ensures[C14] "column-count" len(result.Columns) == 5
+//@ ensures[C14] "one-value-per-date" len(c) > (t.IdlePeriod()) ==> (forall i :: 0 <= i && i < len(result.Columns) ==> len(col(result.Columns[i])) == len(result.Date))
+//@ ensures[C14] "dates" len(c) > (t.IdlePeriod()) ==> len(result.Date) <= len(c) && (forall k :: 0 <= k && k < len(result.Date) ==> result.Date[k] == c[k + len(c) - len(result.Date)].Date)
+//@ ensures[C14] "close" len(c) > (t.IdlePeriod()) ==> (forall k :: 0 <= k && k < len(result.Date) ==> colnum(result.Columns[0])[k] == c[k + len(c) - len(result.Date)].Close)
+//@ ensures[C14] "annotation" len(c) > (t.IdlePeriod()) ==> (forall k :: 0 <= k && k < len(result.Date) ==> colstr(result.Columns[3])[k] == (normS(res(TripleRsiStrategy_Compute), k + len(c) - len(result.Date)) == 0 - 1 ? "S" : (normS(res(TripleRsiStrategy_Compute), k + len(c) - len(result.Date)) == 1 ? "B" : "")))
+//@ ensures[C14] "outcome" len(c) > (t.IdlePeriod()) ==> (forall k :: 0 <= k && k < len(result.Date) ==> colnum(result.Columns[4])[k] == res(Outcome)[k + len(c) - len(result.Date)] * 100)
+//@ ensures[C03] consumed(c) == len(c)
+//@ use nlast_hold(res(TripleRsiStrategy_Compute), len(res(TripleRsiStrategy_Compute)) - len(arg(ActionsToAnnotations, 0, 0)), len(res(TripleRsiStrategy_Compute)) - len(arg(ActionsToAnnotations, 0, 0)))
+//@ use nlast_skip(res(TripleRsiStrategy_Compute), arg(ActionsToAnnotations, 0, 0), len(res(TripleRsiStrategy_Compute)) - len(arg(ActionsToAnnotations, 0, 0)))
